@@ -4,6 +4,8 @@
 def model_check(ctx):
     for f in ('-1', '0', '1', '2', '3'):
         ctx.mc('bridge', 'MC_IterBridge', 'IB_3_f%s.cfg' % f, timeout=300)
+    for f in (('-1', '3', '6') if ctx.tier == 'quick' else ('-1', '0', '1', '2', '3', '4', '5', '6')):
+        ctx.mc('bridge', 'MC_IterBridge', 'IB_6_f%s.cfg' % f, timeout=600)
     ctx.mc('bridge', 'MC_IterBridge', 'W_result.cfg', expect_violation='ErrorAfterN', timeout=300)
     ctx.mc('bridge', 'MC_IterBridge', 'W_leak.cfg', expect_violation='NeverLeaked', timeout=300)
 
